@@ -80,6 +80,8 @@ struct Ledger {
     consumed_cd: HashSet<(u64, u64)>,
     /// C03: challenges a node issued and that were not yet consumed: (node, cd name) -> issue time
     outstanding_chal: HashMap<(u64, u64), (u64, u64, SocketAddr)>, // -> (armed at, challenged id, address)
+    /// C03: handshake packets (by nonce) that carried a given request: (node, rid) -> nonces
+    hs_for_req: HashMap<(u64, u64), HashSet<[u8; 12]>>,
     /// C04: the handler's own requests seen on the wire: (node, rid) -> (sent_at, to, answered)
     internal: HashMap<(u64, u64), (u64, u64, bool)>,
 }
@@ -654,6 +656,13 @@ impl HandlerRunner {
                             if let Some(l) = self.ledger.reqs.get_mut(&(from, rn)) {
                                 l.on_wire = true;
                             }
+                            if matches!(p.kind, PacketKind::Handshake { .. }) {
+                                let set = self.ledger.hs_for_req.entry((from, rn)).or_default();
+                                set.insert(p.nonce);
+                                if set.len() > 1 {
+                                    out.push(format!("!MON C03 second-handshake-for-one-request node={} rid={}", from, rn));
+                                }
+                            }
                             if rn >= 1_000_000 {
                                 self.ledger.internal.entry((from, rn)).or_insert((self.now_ms, dst_idx, false));
                             }
@@ -1137,7 +1146,7 @@ impl HandlerRunner {
             }
             // flips one bit / truncates / extends / splices wire datagram #k into a new wire entry
             ["hmut", k, how, arg] => {
-                let k: usize = k.parse().unwrap_or(usize::MAX);
+                let k: usize = if *k == "next" { self.next_del } else { k.parse().unwrap_or(usize::MAX) };
                 if let Some(d) = self.wire.get(k).cloned() {
                     let mut b = d.bytes.clone();
                     let a: usize = arg.parse().unwrap_or(0);
@@ -1388,7 +1397,14 @@ pub fn gen_case(rng: &mut Rng, tier: &str, profile: &str, stats: &mut Stats) -> 
             // tamper campaign: every kind of mutation of a captured datagram, redirection to another
             // node, presentation from another source address
             let k = rng.below(emitted);
-            match rng.below(8) {
+            match rng.below(9) {
+                8 => {
+                    // the next datagram in flight is replaced by a copy with bytes appended behind its
+                    // auth-data (size field fixed up, header re-masked); the original is lost
+                    ops.push(format!("hmut next authpad {}", rng.below(7)));
+                    ops.push("hdel last".into());
+                    ops.push("hdel skip".into());
+                }
                 7 => { ops.push(format!("hmut {} authpad {}", k, rng.below(7))); ops.push("hdel last".into()); }
                 0 | 1 => { ops.push(format!("hmut {} flip {}", k, rng.below(12000))); ops.push("hdel last".into()); }
                 2 => { ops.push(format!("hmut {} trunc {}", k, rng.below(400))); ops.push("hdel last".into()); }
